@@ -3,6 +3,7 @@
 # Creates ONE "fix:" commit in /repo from /verif/fixes/<name>.patch WITHOUT touching /repo's working tree
 # (builder agents are editing it): the commit is made in a detached scratch worktree (snapshot regenerated there
 # when the compiler or std changed), then /repo's branch and index are moved to it.
+exec 9>/var/tmp/wv-repo-git.lock; flock 9   # one git writer in /repo at a time
 set -e
 export GOFLAGS=-mod=mod GOPROXY=off GOSUMDB=off GOTOOLCHAIN=local
 name=$1; msg=$2; shift 2
